@@ -43,3 +43,95 @@ def engine_correspondence(rep, binp, seed, n):
     rep.cov['distinct_nontrivial'] = len(set(tuple(c) for c in cases if len(c) > 12))
     rep.cov['samples'] = [{'history_ints': cases[0][:60], 'dirty_flags_after_each_call': impl[0][:60]}]
     return bad
+
+
+def _decode_event(e):
+    if e == -1:
+        return 'next API call'
+    if e == -2:
+        return 'end of pass'
+    if e == -99:
+        return 'MODEL: evaluation failed (no fuel / child index out of range)'
+    if e < 0:
+        return str(e)
+    kind, p = e % 4, e // 4
+    if kind == 0:
+        hit, q = p % 2, p // 2
+        node, inp = q % 1024, q // 1024
+        return 'Query(node %d, input #%d %s, %s)' % (node, inp // 3, ['PerformLayout', 'ComputeSize', 'PerformHiddenLayout'][inp % 3], 'hit' if hit else 'miss')
+    return '%s(node %d)' % ({1: 'Return', 2: 'Hidden', 3: 'SetLayout'}[kind], p)
+
+
+def _first_difference(impl, model):
+    """Position of the first differing integer and a readable window around it (dirty flags are 0/1 after the last -2 / -1)."""
+    n = min(len(impl), len(model))
+    j = next((i for i in range(n) if impl[i] != model[i]), n)
+    call = impl[:j].count(-1)
+
+    def in_events(seq):
+        # inside the event list of a layout call: after a -1 with a -2 still ahead before the next -1
+        k = j
+        while k < len(seq) and seq[k] not in (-1, -2):
+            k += 1
+        return k < len(seq) and seq[k] == -2
+
+    def show(seq):
+        if j >= len(seq):
+            return 'end of output'
+        if in_events(seq) or seq[j] in (-1, -2, -99):
+            return _decode_event(seq[j])
+        return 'dirty flag %d' % seq[j]
+    start = max([i + 1 for i in range(j) if impl[i] == -1] or [0])
+    before = [_decode_event(e) for e in impl[max(start, j - 6):j]] if in_events(impl) else []
+    return {'api_call_index': call, 'position': j, 'implementation_logged': show(impl), 'model_predicted': show(model),
+            'events_before_in_this_pass': before}
+
+
+def engine_event_correspondence(rep, binp, seed, n):
+    """EVENT-LEVEL correspondence between Model/Engine.v and TaffyTree in exact-key mode: on random API histories the traced memo
+    (Model/EngineReplay.v, proved to be Engine.memo plus a log) with the real algorithms' recorded behaviour replayed must predict
+    every compute_cached_layout call (node, input, hit/miss), every compute_hidden_layout and set_unrounded_layout, in order,
+    and the dirty flag of every node after every API call."""
+    name = ('cache events of every layout pass (compute_cached_layout node/input/hit-or-miss, compute_hidden_layout, set_unrounded_layout) '
+            '+ dirty flags after every API call: TaffyTree in exact-key mode vs Model/Engine.v memo/cget/cstore/hide/mutate with the real '
+            'algorithms replayed (Model/EngineReplay.v)')
+    rc, out = vh(binp, ['engev', 'cases', seed, n], timeout=300)
+    if rc != 0:
+        rep.add_broken('correspondence', 'vh engev cases', out[-800:])
+        return
+    cases, impl = parse_cr(out)
+    st = re.search(r'EVSTATS passes (\d+) events (\d+) hits (\d+) misses (\d+) hidden (\d+) entries (\d+) outputs (\d+) anomalies (\d+)', out)
+    for a in [l for l in out.split('\n') if l.startswith('ANOM ')][:5]:
+        # the recorded scripts are not a function of (node, styles, children, input, outputs so far), or the trace is not well nested
+        rep.add_broken('correspondence', 'event trace recording', a)
+    try:
+        with Lock('coq'):
+            rcm, outm, _ = coq_make(['Model/EngineReplayRun.vo', 'Proofs/EngineReplay.vo'])
+        if rcm != 0:
+            raise RuntimeError(outm[-1500:])
+        t0 = time.time()
+        model = run_model(rep.pid + 'EV', 'From TV Require Import Model.EngineReplayRun.', 'run_case', cases, scope='Z', elem='list Z')
+        # report through diff_results; for a disagreeing history only a window around the first difference is kept as integers
+        # (key = [seed, index]: `vh engev cases <seed> 1 <index>` regenerates it) and the difference is decoded once
+        keys, iw, mw, first = [], [], [], None
+        for k, (a, b) in enumerate(zip(impl, model)):
+            if a == b:
+                keys.append([seed, k]); iw.append([]); mw.append([])
+                continue
+            d = _first_difference(a, b)
+            j = d['position']
+            keys.append([seed, k]); iw.append(a[max(0, j - 12):j + 12]); mw.append(b[max(0, j - 12):j + 12])
+            if first is None:
+                first = dict(d, seed=seed, history_index=k, replay='vh engev cases %s 1 %d' % (seed, k))
+        bad = diff_results(rep, name, keys, iw, mw, max_report=3)
+        if first is not None:
+            rep.add_broken('correspondence', 'first event-level disagreement (decoded)', first)
+    except RuntimeError as ex:
+        rep.add_broken('correspondence', 'engine replay model evaluation', str(ex)[-1500:])
+        bad, t0 = [], time.time()
+    ev = {'histories': len(cases), 'disagreements': len(bad), 'model_seconds': round(time.time() - t0, 1)}
+    if st:
+        ev.update(dict(zip(['layout_passes', 'events_compared', 'cache_hits', 'cache_misses', 'hidden_layouts', 'script_table_entries',
+                            'distinct_evaluation_records', 'recording_anomalies'], map(int, st.groups()))))
+    rep.cov['event_level_correspondence'] = ev
+    return bad
